@@ -881,7 +881,7 @@ def hardening(rng, budget):
         c = sequence(tuple(rng.randrange(len(alphabet())) for _ in range(L)), rot=rng.randrange(6))
         c["direct"] = True
         for r in c["reqs"]:
-            r["wait"] = rng.choice([0, 1, 1024, 4096])
+            r["wait"] = rng.choice([0, 1, 1024, 4096, -1])    # -1: no timeout (cancelled at exit)
             r["b"]["lat"] = rng.choice([0, 1024, 2048])
         out.append(tagged("direct-transport", c))
     # 7: leaving the context while a POST is in flight
